@@ -361,7 +361,7 @@ def standard_random_specs(tier, seed, n_list, workers_of, steps, count, restarts
         w = ws[(i // len(n_list)) % len(ws)]
         spec = {"n": n, "workers": w, "steps": steps, "seed": rnd.randrange(10 ** 6), "sched_seed": rnd.randrange(10 ** 6)}
         if moves_mix and i % 2 == 1:
-            mv = ["sh", "sh"] + [rnd.choice(["sh", "wf"]) for _ in range(n - 2)]
+            mv = ["sh"] + [rnd.choice(["sh", "wf"]) for _ in range(n - 1)]      # wire fencing also in [0+]
             spec["moves"] = mv
             if "wf" in mv and rnd.random() < 0.5:
                 # a cap that really cuts the region (excludes the lattice site below the last interface);
